@@ -148,7 +148,7 @@ pub fn decode_c05(b: &[u8]) -> c05::Case {
     }
     let clone_at = if ops.is_empty() { 0 } else { clone_frac * ops.len() / 256 };
     let other = if ops.len() % 2 == 0 { Some(r2_cfg(b)) } else { None };
-    c05::Case { cfg, other, replay_in_new_thread: false, clone_from_dirt: vec![], dirt_period_delta: 0, ops, clone_at }
+    c05::Case { cfg, other, replay_in_new_thread: false, clone_from_dirt: vec![], dirt_period_delta: 0, predecessor: vec![], ops, clone_at }
 }
 
 #[cfg(feature = "serde")]
